@@ -5,6 +5,7 @@ CONSTANTS
   B = 2
   MaxTime = 7
   MaxArrivals = 5
+  Fates = {"served"}
   Depth = 0
 INVARIANT Invariants
 CHECK_DEADLOCK FALSE
